@@ -120,8 +120,7 @@ def _nonempty(eng, st, a):
 @REG.specfun("same_elements")
 def _same_elements(eng, st, a, b):
     ma, mb = eng.reg.as_membership(eng, a), eng.reg.as_membership(eng, b)
-    x = z3.Const(fresh_name("e"), sort_of(ma.t[1]))
-    return vbool(z3.ForAll([x], z3.Select(ma.x, x) == z3.Select(mb.x, x)))
+    return vbool(ma.x == mb.x)
 
 
 # ---------------------------------------------------------------- graph model
@@ -212,3 +211,9 @@ def _isinstance(eng, v, names):
 
 
 REG.isinstance_ = _isinstance
+
+
+@REG.specfun("unwrap")
+def _unwrap(eng, st, a):
+    """The value of an Optional that is known (by the surrounding formula) not to be None."""
+    return a.x[1] if a.t[0] == "opt" else a
